@@ -385,6 +385,8 @@ def gen_stream(rng):
         p = gen_payload(rng)
         parts.append(frame(p))
     data = b"".join(parts)
+    if parts and rng.random() < 0.2:
+        maxv = len(parts[0]) - 8                                     # first frame exactly at the limit
     r = rng.random()
     if r < 0.12 and data:
         data = data[:rng.randrange(len(data))]                      # truncated
@@ -478,6 +480,15 @@ class Cases:
 
 
 def run(chk):
+    if getattr(chk, "replay", None):
+        # every generator is seeded: a replay re-runs the recorded seed and tier (same cases,
+        # same order) and must reproduce the recorded violation
+        import random
+        txt = open(chk.replay).read()
+        m = re.search(r"^seed: (\d+) tier: (\w+)$", txt, re.M)
+        if m:
+            chk.seed, chk.tier = int(m.group(1)), m.group(2)
+            chk.rng = random.Random(chk.seed)
     quick = chk.tier == "quick"
     ok_proofs = chk.proofs()
     factor = 1 if ok_proofs else 4
@@ -503,16 +514,18 @@ def run(chk):
     distinct = set()
     samples = chk.coverage["samples"]
 
+    stamp = f"\nseed: {chk.seed} tier: {chk.tier}\nreplay: python3 bin/check.py C19 --replay <this file>\n"
+
     def hard(what, detail):
-        chk.violation(what, "C19: " + what + "\n" + json.dumps(detail, indent=1, default=str))
+        chk.violation(what, "C19: " + what + "\n" + json.dumps(detail, indent=1, default=str) + stamp)
 
     def soft(what, detail):
         chk.coverage["disagreements_checked"] += 1
         chk.violation(what, "correspondence E3 (no property clause broken by this input): " + what + "\n"
-                      + json.dumps(detail, indent=1, default=str), failing_input=False)
+                      + json.dumps(detail, indent=1, default=str) + stamp, failing_input=False)
 
     # ================================================================== exhaustive small inputs
-    ex_types = ["u16", "i16", "bool", "str", "vbool", "vu16"] if quick else TYPES
+    ex_types = ["u16", "bool", "vbool"] if quick else TYPES
     ex_lines, ex_exprs, ex_info = [], [], []
     for t in TYPES:
         full = t in ex_types
@@ -520,7 +533,7 @@ def run(chk):
         ex_lines += [f"bc dec {t} {hexs(b)}" for b in inputs]
         ex_exprs.append(all2_exprs(f"(decode {coq_ty(t)})", full))
         ex_info.append(("bc dec", t, inputs))
-    ex_variants = [0, 1, 5, 10] if quick else range(len(HMSG))
+    ex_variants = [0, 5] if quick else range(len(HMSG))
     for i, (tag, call, tys) in enumerate(HMSG):
         full = i in ex_variants
         inputs = all_upto(2 if full else 1)
@@ -529,7 +542,7 @@ def run(chk):
         ctor = "SCall" if call else "SCast"
         ex_exprs.append(all2_exprs(f"(fun a => deserialize tbl ({ctor} {blist(tag.encode())} a None))", full))
         ex_info.append(("enum de", tag, inputs))
-    for k in (["u64", "vu8"] if quick else KEYS):
+    for k in (["u64"] if quick else KEYS):
         inputs = all_upto(2)
         ex_lines += [f"job de {k} {smsg_line('cast', b'Unit', b'', b)}" for b in inputs]
         ex_exprs.append(all2_exprs(f"(fun m => job_deserialize {coq_ty(k)} tbl (SCast {blist(b'Unit')} [] (Some m)))", True))
@@ -544,6 +557,7 @@ def run(chk):
     ex_info.append(("stream", "max=100", inputs))
 
     # ================================================================== generated cases
+    corpus = json.load(open(os.path.join(ROOT, "corpus", "C19", "cases.json")))
     bc_dec, bc_rt = Cases("bc dec"), Cases("bc rt")
     for _ in range(2500 * N):
         t = rng.choice(TYPES)
@@ -583,27 +597,33 @@ def run(chk):
         r = rng.random()
         if r < 0.25:
             pass
-        elif r < 0.60:
+        elif r < 0.50:
             args = mutate(rng, args)
-        elif r < 0.68:
+        elif r < 0.58:
             args = args + bytes(rng.choice([1, 8]))                    # trailing bytes
-        elif r < 0.76 and args:
+        elif r < 0.66 and args:
             args = args[:rng.randrange(len(args))]                     # short
-        elif r < 0.82:
+        elif r < 0.72:
             tagb = rng.choice([b"", b"Nope", b"unit", tagb + b"x", tagb[:-1], HMSG[rng.randrange(len(HMSG))][0].encode()])
-        elif r < 0.88:
+        elif r < 0.78:
             kind = rng.choice(["cast", "call", "reply"])               # wrong kind for the variant
         elif r < 0.94 and tys:
             # a conversion that panics: invalid scalar / utf8 / too short for the type
             fs = [py_encode(t, v) for t, v in zip(tys, gen_fields(i))]
             j = rng.randrange(len(fs))
-            fs[j] = rng.choice([b"", b"\xff", b"\x00\x00\xd8\x00", b"\xc0\x80", fs[j][:-1] if fs[j] else b""])
+            fs[j] = rng.choice([b"", b"\xff", b"\x00\x00\xd8\x00", b"\xc0\x80", fs[j][:-1] if fs[j] else b"",
+                                b"\x00\x11\x00\x00", b"\xed\xa0\x80"])
             args = pack(fs)
         else:
             args = rand_bytes(rng, 30)
         return kind, tagb, args
 
     en_de, en_rt = Cases("enum de"), Cases("enum rt")
+    for e in corpus["enum_de"]:
+        kind, tagb, args = e["kind"], e["tag"].encode(), bytes.fromhex(e["args"])
+        m = smsg_coq(kind, tagb, args, None)
+        en_de.add(f"enum de {smsg_line(kind, tagb, args, None)}",
+                  f"(deserialize tbl {m}, framing_ok_C19 tbl {m})", (kind, tagb, args))
     for _ in range(3500 * N):
         kind, tagb, args = gen_smsg()
         meta = None if rng.random() < 0.8 else rand_bytes(rng, 20)
@@ -636,6 +656,16 @@ def run(chk):
         return f"(mkJo {s} {'None' if ttl is None else '(Some ' + str(ttl) + ')'})"
 
     jo_rt, jo_de, job_de, job_rt = Cases("jo rt"), Cases("jo de"), Cases("job de"), Cases("job rt")
+    for sub, ttl in corpus["jo_rt"]:
+        o = opts_coq(int(sub), None if ttl == "none" else int(ttl))
+        jo_rt.add(f"jo rt {sub} {ttl}", f"(enc_opts {o}, dec_opts (enc_opts {o}))",
+                  (int(sub), None if ttl == "none" else int(ttl)))
+    for e in corpus["job_de"]:
+        k, kind, tagb, args = e["key"], e["kind"], e["tag"].encode(), bytes.fromhex(e["args"])
+        meta = None if e["meta"] is None else bytes.fromhex(e["meta"])
+        m = smsg_coq(kind, tagb, args, meta)
+        job_de.add(f"job de {k} {smsg_line(kind, tagb, args, meta)}",
+                   f"(job_deserialize {coq_ty(k)} tbl {m}, meta_ok_C19 {coq_ty(k)} {m})", (k, kind, tagb, args, meta))
     for _ in range(700 * N):
         s, ttl = gen_opts()
         jo_rt.add(f"jo rt {s} {'none' if ttl is None else ttl}",
@@ -730,6 +760,10 @@ def run(chk):
 
     # ---- streams
     stream_cases = []   # dict(max, data, splits)
+    for e in corpus["stream"]:
+        data = bytes.fromhex(e["data"])
+        stream_cases.append({"max": e["max"], "data": data, "splits": compositions(len(data), rng, "cuts12"),
+                             "kind": "corpus"})
     n_streams = 350 * N
     for _ in range(n_streams):
         maxv, data = gen_stream(rng)
@@ -756,8 +790,35 @@ def run(chk):
         stream_cases.append({"max": maxv, "data": data, "splits": compositions(len(data), rng, 3), "kind": "oversized"})
 
     phase("generate")
+    # declared lengths no Vec could hold, under a limit that would allow them
+    for _ in range(8 * N):
+        maxv = rng.choice([1 << 63, U64 - 1, (1 << 63) + 5])
+        declared = rng.choice([1 << 63, maxv, (1 << 63) + 1])
+        data = frame(b"") + frame(bytes(rng.randrange(256) for _ in range(rng.choice([0, 9]))), declared=declared)
+        stream_cases.append({"max": maxv, "data": data, "splits": compositions(len(data), rng, 2), "kind": "unallocatable"})
+    # live node server: garbage into one raw session (E4-style direct observation)
+    live_cases = []
+    for _ in range(120 * N):
+        maxv = rng.choice([4096, 65536])
+        parts = [frame(gen_payload(rng)) for _ in range(rng.choice([0, 0, 1, 2]))]
+        data = b"".join(parts)
+        r = rng.random()
+        if r < 0.3:
+            data += frame(bytes(rng.randrange(256) for _ in range(rng.choice([0, 4]))),
+                          declared=rng.choice([maxv + 1, 1 << 24, 1 << 40, U64 - 1]))
+        elif r < 0.55:
+            data += frame(bytes([0xFF] * rng.choice([1, 3, 9])))
+        elif r < 0.75:
+            data += frame(gen_payload(rng) + b"\x12\x03abc")[:rng.choice([1, 7, 9, 11])]
+        elif r < 0.85:
+            data = mutate(rng, data)
+        how = "close" if (0.55 <= r < 0.75 or rng.random() < 0.3) else "hold"
+        live_cases.append({"max": maxv, "how": how, "data": data})
     # ================================================================== implementation, pass 1: prost validity
     cand = set()
+    for c in live_cases:
+        for p in py_frames(c["data"], c["max"], None):
+            cand.add(p)
     for c in stream_cases:
         for p in py_frames(c["data"], c["max"], None):
             cand.add(p)
@@ -783,13 +844,17 @@ def run(chk):
             st_index.append((ci, si))
     sr_index = []
     for ci, c in enumerate(stream_cases):
-        if c["kind"] in ("random", "oversized") and ci % 2 == 0 or c["kind"] == "two-frame cuts" and ci % 3 == 0:
+        if c["kind"] in ("random", "oversized", "unallocatable") and ci % 2 == 0 or c["kind"] == "corpus" or c["kind"] == "two-frame cuts" and ci % 3 == 0:
             sizes = c["splits"][-1]
             lines.append(f"sreader {c['max']} {hexs(c['data'])} {','.join(map(str, sizes)) or '-'} pend")
             sr_index.append(ci)
+    for c in live_cases:
+        lines.append(f"live {c['max']} {c['how']} {hexs(c['data'])}")
     try:
         impl = run_harness(build, "eng_codec", lines, shards=8, timeout=1500)
     except RuntimeError as ex:
+        if "harness panic" in str(ex):
+            return infrastructure_failure(chk.prop, "the harness itself failed:\n" + str(ex)[-1500:])
         # the process died (abort / stack overflow / timeout): find the input
         bad = locate_crash(build, lines)
         hard("the decoding process crashed or hung on an input", {"harness_line": bad, "error": str(ex)[-800:]})
@@ -810,6 +875,7 @@ def run(chk):
         ans[g.kind] = take(len(g.lines))
     ans["stream"] = take(len(st_index))
     ans["sreader"] = take(len(sr_index))
+    ans["live"] = take(len(live_cases))
     if pos != len(impl):
         raise RuntimeError(f"internal: consumed {pos} of {len(impl)} harness answers")
 
@@ -869,6 +935,12 @@ def run(chk):
         for (i, vs), x in zip(en_rt.meta, ans["enum rt"])])
     plan.many("stream oracle", exprs_oracle)
     plan.many("stream model", exprs_model)
+    live_exprs = []
+    for c in live_cases:
+        okp = sorted({p for p in py_frames(c["data"], c["max"], None) if validtbl.get(p) is not None})
+        vt = "(valid_tbl [" + "; ".join(blist(p) for p in okp) + "])"
+        live_exprs.append(f"existsb is_err (snd (feed {c['max']} {vt} init {blist(c['data'])}))")
+    plan.many("live model", live_exprs)
     plan.run("C19")
     phase("coq")
     flat_res = plan.get_raw("x")
@@ -914,21 +986,21 @@ def run(chk):
 
     # ---- bc dec
     got, mod = ans[bc_dec.kind], model_of(bc_dec)
-    for (t, b), x, y in zip(bc_dec.meta, got, mod):
+    for ln, (t, b), x, y in zip(bc_dec.lines, bc_dec.meta, got, mod):
         chk.coverage["evaluations"] += 1
         chk.count("bc_dec." + ("ok" if x != "None" else "panic"))
         distinct.add(("d", t, b))
         if pt(x) != y:
             soft("BytesConvertable::from_bytes differs from the model",
-                 {"type": t, "bytes": list(b), "impl": x, "model": show_term(y)})
+                 {"harness_line": ln, "type": t, "bytes": list(b), "impl": x, "model": show_term(y)})
     # ---- bc rt (round-trip clause)
     got, mod = ans[bc_rt.kind], model_of(bc_rt)
     oracle = plan.get("rt oracle")
-    for (t, v), x, y, o in zip(bc_rt.meta, got, mod, oracle):
+    for ln, (t, v), x, y, o in zip(bc_rt.lines, bc_rt.meta, got, mod, oracle):
         chk.coverage["evaluations"] += 1
         chk.count("bc_rt." + t)
         distinct.add(("r", t, str(v)))
-        d = {"type": t, "value": v if not isinstance(v, bytes) else list(v), "impl (bytes, back)": x,
+        d = {"harness_line": ln, "type": t, "value": v if not isinstance(v, bytes) else list(v), "impl (bytes, back)": x,
              "model": show_term(y)}
         if o != "true":
             hard("round trip fails: from_bytes(into_bytes(v)) != v", d)
@@ -938,12 +1010,12 @@ def run(chk):
             samples.append(d)
     # ---- enum de
     got, mod = ans[en_de.kind], model_of(en_de)
-    for (kind, tagb, args), x, y in zip(en_de.meta, got, mod):
+    for ln, (kind, tagb, args), x, y in zip(en_de.lines, en_de.meta, got, mod):
         chk.coverage["evaluations"] += 1
         model_ans, framing_ok = y[1], y[2]
         chk.count("enum_de." + ("ok" if model_ans != "None" else ("badframing" if framing_ok == "false" else "badfield")))
         distinct.add(("e", kind, tagb, args))
-        d = {"kind": kind, "variant": tagb.decode(errors="replace"), "args": list(args), "impl": x,
+        d = {"harness_line": ln, "kind": kind, "variant": tagb.decode(errors="replace"), "args": list(args), "impl": x,
              "model": show_term(model_ans), "framing_ok": framing_ok}
         if x == "PANIC":
             hard("generated decoder panics instead of returning an error", d)
@@ -955,11 +1027,11 @@ def run(chk):
     # ---- enum rt
     got, mod = ans[en_rt.kind], model_of(en_rt)
     oracle = plan.get("ert oracle")
-    for (i, vs), x, y, o in zip(en_rt.meta, got, mod, oracle):
+    for ln, (i, vs), x, y, o in zip(en_rt.lines, en_rt.meta, got, mod, oracle):
         chk.coverage["evaluations"] += 1
         chk.count("enum_rt." + HMSG[i][0])
         distinct.add(("er", i, str(vs)))
-        d = {"variant": HMSG[i][0], "fields": str(vs), "impl (serialized, back)": x, "model": show_term(y)}
+        d = {"harness_line": ln, "variant": HMSG[i][0], "fields": str(vs), "impl (serialized, back)": x, "model": show_term(y)}
         if "PANIC" in x:
             hard("generated (de)serializer panics on a well-formed value", d)
         elif o != "true":
@@ -970,10 +1042,10 @@ def run(chk):
             samples.append(d)
     # ---- JobOptions round trip (F5)
     got, mod = ans[jo_rt.kind], model_of(jo_rt)
-    for (s, ttl), x, y in zip(jo_rt.meta, got, mod):
+    for ln, (s, ttl), x, y in zip(jo_rt.lines, jo_rt.meta, got, mod):
         chk.coverage["evaluations"] += 1
         t = pt(x)   # (orig, enc, back)
-        d = {"submit": s, "ttl_ns": ttl, "impl (original, bytes, back)": x}
+        d = {"harness_line": ln, "submit": s, "ttl_ns": ttl, "impl (original, bytes, back)": x}
         if "PANIC" in x:
             hard("JobOptions conversion panics on a well-formed value", d)
             continue
@@ -987,7 +1059,7 @@ def run(chk):
             soft("JobOptions encoding differs from the model", dict(d, model=show_term(y)))
     # ---- JobOptions decode of arbitrary bytes
     got, mod = ans[jo_de.kind], model_of(jo_de)
-    for b, x, y in zip(jo_de.meta, got, mod):
+    for ln, b, x, y in zip(jo_de.lines, jo_de.meta, got, mod):
         chk.coverage["evaluations"] += 1
         distinct.add(("jd", b))
         if x == "PANIC":
@@ -996,13 +1068,13 @@ def run(chk):
             soft("JobOptions::from_bytes differs from the model", {"bytes": list(b), "impl": x, "model": show_term(y)})
     # ---- job de
     got, mod = ans[job_de.kind], model_of(job_de)
-    for (k, kind, tagb, args, meta), x, y in zip(job_de.meta, got, mod):
+    for ln, (k, kind, tagb, args, meta), x, y in zip(job_de.lines, job_de.meta, got, mod):
         chk.coverage["evaluations"] += 1
         model_ans, meta_ok = y[1], y[2]
         head = model_ans if isinstance(model_ans, str) else model_ans[0]
         chk.count("job_de." + head)
         distinct.add(("j", k, kind, tagb, args, meta))
-        d = {"key_type": k, "kind": kind, "variant": tagb.decode(errors="replace"), "args": list(args),
+        d = {"harness_line": ln, "key_type": k, "kind": kind, "variant": tagb.decode(errors="replace"), "args": list(args),
              "metadata": None if meta is None else list(meta), "impl": x, "model": show_term(model_ans)}
         if pt(x) != model_ans:
             if x.startswith("JOk") and meta_ok == "false":
@@ -1011,9 +1083,9 @@ def run(chk):
                 soft("Job::deserialize differs from the model", d)
     # ---- job rt
     got, mod = ans[job_rt.kind], model_of(job_rt)
-    for (k, key, s, ttl, i, vs), x, y in zip(job_rt.meta, got, mod):
+    for ln, (k, key, s, ttl, i, vs), x, y in zip(job_rt.lines, job_rt.meta, got, mod):
         chk.coverage["evaluations"] += 1
-        d = {"key_type": k, "key": str(key), "submit": s, "ttl_ns": ttl, "variant": HMSG[i][0], "fields": str(vs),
+        d = {"harness_line": ln, "key_type": k, "key": str(key), "submit": s, "ttl_ns": ttl, "variant": HMSG[i][0], "fields": str(vs),
              "impl (options, serialized, back)": x, "model back": show_term(y)}
         if "PANIC" in x or "SER_" in x or "JErr" in x:
             hard("Job (de)serialization fails on a well-formed value", d)
@@ -1033,14 +1105,14 @@ def run(chk):
             soft("Job round trip differs from the model", d)
     # ---- live actors
     got, mod = ans[actor.kind], model_of(actor)
-    for (who, msgs), x, y in zip(actor.meta, got, mod):
+    for ln, (who, msgs), x, y in zip(actor.lines, actor.meta, got, mod):
         chk.coverage["evaluations"] += 1
         t = pt(x)
         alive, sent, handled = t[1], t[2], t[3]
         chk.count("actor." + who.split(":")[0])
         chk.count("actor.dropped_messages", len(msgs) - len(handled))
         distinct.add(("a", who, str(msgs)))
-        d = {"actor": who, "messages": [smsg_actor(*m) for m in msgs], "impl (alive, sent, handled)": x,
+        d = {"harness_line": ln, "actor": who, "messages": [smsg_actor(*m) for m in msgs], "impl (alive, sent, handled)": x,
              "model handled": show_term(y)}
         if alive != "true":
             hard("an undecodable payload harmed the receiving actor (it is no longer running)", d)
@@ -1062,7 +1134,8 @@ def run(chk):
         chk.count("stream." + c["kind"], len(answers))
         distinct.add(("s", maxv, data))
         declared = int.from_bytes(data[:8], "big") if len(data) >= 8 else None
-        d = {"max": maxv, "stream": list(data) if len(data) <= 200 else data.hex(), "splits": len(c["splits"]),
+        d = {"harness_line (one chunk)": f"stream {maxv} {hexs(data)} - ready",
+             "max": maxv, "stream": list(data) if len(data) <= 200 else data.hex(), "splits": len(c["splits"]),
              "distinct impl answers": uniq, "model (one chunk, one split)": show_term(m)}
         last = m[0][1][-1] if m[0][1] else None
         chk.count("stream.end." + (show_term(last) if last is not None else "none"))
@@ -1113,6 +1186,30 @@ def run(chk):
         elif got_raw != want_msgs or reason != want_reason:
             soft("session reader differs from the model", d)
 
+    # ---- live node: a bad frame closes that session only
+    for c, x, framing_error in zip(live_cases, ans["live"], plan.get("live model")):
+        chk.coverage["evaluations"] += 1
+        t = pt(x)
+        link_before, raw1_closed, others_closed, server_ok, link_ready = t[1:6]
+        must_close = framing_error == "true" or c["how"] == "close"
+        chk.count("live." + ("must_close" if must_close else "may_stay"))
+        distinct.add(("l", c["max"], c["how"], c["data"]))
+        d = {"harness_line": f"live {c['max']} {c['how']} {hexs(c['data'])}",
+             "max": c["max"], "then": c["how"], "bytes written into session raw1": list(c["data"]),
+             "impl (link ready before, raw1 closed, another session closed, node server answers, link still ready)": x,
+             "model: framing error before end of input": framing_error}
+        if link_before != "true":
+            # not this property's business (C18/C20): recorded, no verdict
+            chk.count("live.setup_failed")
+            if not any("live scenario" in n for n in chk.notes):
+                chk.notes.append("live scenario could not be set up (node servers did not start or did not become "
+                                 "ready); live cases skipped")
+        elif others_closed != "false" or server_ok != "true" or link_ready != "true":
+            hard("bytes sent into one session harmed the node server or another session", d)
+        elif must_close and raw1_closed != "true":
+            hard("a truncated or undecodable frame did not close its session", d)
+        if len(samples) < 9 and must_close and len(c["data"]) < 40:
+            samples.append(d)
     phase("stream model+compare")
     chk.coverage["traces_validated_against_impl"] = chk.coverage["evaluations"]
     chk.coverage["distinct_nontrivial"] = len(distinct)
@@ -1126,9 +1223,11 @@ def run(chk):
         "compositions for small two-frame streams), through read_network_message and through the real SessionReader "
         "actor; live actors fed through send_serialized. distinct_nontrivial = distinct generated (non-exhaustive) "
         "case descriptions")
-    chk.notes.append("session-level clause (a bad frame closes that session only, node server and other sessions "
-                     "stay up): covered by the model + SessionReader correspondence (the reader stops itself and "
-                     "only itself); no live NodeSession/NodeServer is started by this check")
+    chk.notes.append("session-level clause (a bad frame closes that session only): besides the model + SessionReader "
+                     "correspondence, `live` cases start two real NodeServers with an authenticated in-memory link and "
+                     "two raw inbound sessions, write the generated bytes into one raw session and observe (no model "
+                     "for the node server): that session is disconnected when the model predicts a framing error or the "
+                     "stream ends; the other raw session, the authenticated link and the node server stay up")
     return chk.finish(trusted_base=TRUSTED)
 
 
